@@ -86,19 +86,32 @@ def make_case(seed, i, tier):
         "box_growth": rng.choice([0.0, 0.0, 0.01, 0.03]),
         "subcycles": rng.choice([1, 2, 5]),
         "maxlen": rng.choice([3, 4, 6, 10, 20, 40]),
-        "cross_after": rng.choice([1, 2, 3, 5, 9, 15, 60]),
+        "cross_after": rng.choice([1, 2, 3, 5, 6, 7, 9, 15, 60]),
         "direction": rng.choice([1, -1]),
         "reverse": rng.random() < 0.4,
-        "chunk_mode": rng.choice(["mixed", "mixed", "mixed", "frame", "burst", "bytes", "all"]),
+        "chunk_mode": rng.choice(["mixed", "mixed", "mixed", "frame", "burst", "bytes", "all", "tail1"]),
         "fail": rng.choice([None, None, None, "maybe", "yes"]),
         "instant": rng.random() < 0.2,
-        "early_exit": rng.random() < 0.25,
+        "early_exit": rng.random() < 0.35,
         "shuffle_ids": rng.random() < 0.8,
         "retrace": rng.random() < 0.3,
         "eng_seed": rng.randrange(1 << 30),
         "trr_endian": rng.choice([">", "<"]),
         "trr_double": rng.random() < 0.4,
     }
+    # structured part: chunk pattern x fault kind x crossing time are visited systematically per engine
+    j = i // 8
+    chunks = ["mixed", "frame", "burst", "bytes", "all", "tail1", "mixed", "mixed"]
+    faults = ["none", "maybe", "yes", "early", "instant", "none", "early", "none"]
+    crossings = [1, 2, 3, 5, 6, 7, 9, 15, 60]
+    scn["chunk_mode"] = chunks[j % 8]
+    fk = faults[(j // 8) % 8]
+    scn["fail"] = {"maybe": "maybe", "yes": "yes"}.get(fk)
+    scn["early_exit"] = fk == "early"
+    scn["instant"] = fk == "instant"
+    scn["cross_after"] = crossings[(j // 64) % 9]
+    if scn["cross_after"] < 60 and rng.random() < 0.7:
+        scn["maxlen"] = max(scn["maxlen"], scn["cross_after"] + rng.choice([1, 2, 5]))
     scn["early_hint"] = scn["cross_after"] + 1
     if scn["retrace"]:
         scn.update(box_growth=0.0, fail=None, reverse=False)
